@@ -367,35 +367,21 @@ func newMatcher(unknown string, threshold float64) *matcher {
 // the unknown text. The resulting matches can then filtered to determine which
 // are the best matches.
 func (m *matcher) findMatches(known *knownValue) {
-	var mrs []searchset.MatchRanges
 	if all := known.reValue.FindAllStringIndex(m.normUnknown, -1); all != nil {
-		// We found exact matches. Just use those!
+		// We found exact matches. Just use those! The regular expression
+		// delimits each occurrence in bytes, which is what is reported. (Mapping
+		// it to tokens first is not possible in general: an occurrence can begin
+		// or end with white space, or inside a word.)
+		m.mu.Lock()
 		for _, a := range all {
-			var start, end int
-			for i, tok := range m.unknown.Tokens {
-				if tok.Offset == a[0] {
-					start = i
-				}
-				// The token that starts the occurrence may also be the one that
-				// ends it (a known value of a single token), so this test must
-				// not be skipped for it.
-				if tok.Offset >= a[len(a)-1]-len(tok.Text) {
-					end = i
-					break
-				}
-			}
-
-			mrs = append(mrs, searchset.MatchRanges{{
-				SrcStart:    0,
-				SrcEnd:      len(known.set.Tokens),
-				TargetStart: start,
-				TargetEnd:   end + 1,
-			}})
+			m.queue.Push(&Match{Name: known.key, Confidence: 1.0, Offset: a[0], Extent: a[len(a)-1] - a[0]})
 		}
-	} else {
-		// No exact match. Perform a more thorough match.
-		mrs = searchset.FindPotentialMatches(known.set, m.unknown)
+		m.mu.Unlock()
+		return
 	}
+
+	// No exact match. Perform a more thorough match.
+	mrs := searchset.FindPotentialMatches(known.set, m.unknown)
 
 	var wg sync.WaitGroup
 	for _, mr := range mrs {
